@@ -248,7 +248,7 @@ func e2eRun(q request) map[string]bool {
 	k.Add("url", q.URL)
 	k.Add("path", path)
 	k.Add("query", "")
-	k.Add("headers", "host: h.com")
+	k.Add("headers", "host: h.com\r\n\r\n") // the proxy's req.hdrs dump: CRLF-terminated lines and the closing empty line
 	k.Add("body", []byte(""))
 	msgs := message.Messages{&message.Message{Name: "lunar-on-request", KV: k}}
 	req := &spoereq.Request{Messages: &msgs}
